@@ -1,5 +1,5 @@
 import Cutadapt.Properties.C01
-import Wip.MX2
+import Cutadapt.Proofs.MatchSoundComplete
 /-! # C02 — admissible occurrences within the tolerance are found (completeness of `match_to`)
 
 An *occurrence* (`Occ`) is stated in the documented vocabulary only: placement rule of the adapter type, minimum
